@@ -78,6 +78,8 @@ def run(ctx):
                     continue
                 # keep three kinds of results
                 vals = {"/a/text": "some text é", "/a/b/bytes": b"\x00\x01bytes", "/obj": {"k": [1, 2, 3]},
+                        # a result that is None is a result like any other: its record and blob exist, it loads (as None)
+                        "/a/none": None,
                         # larger than what one dbutils.fs.head call returns (65536 bytes), characters of 2 and 3 bytes
                         "/a/large_text": "h\u00e9\u20ac\n" * 30000, "/a/large_bytes": bytes(range(256)) * 400}
                 ret = {}
@@ -119,6 +121,7 @@ def run(ctx):
                     want["a/large_text"] = vals["/a/large_text"].encode("utf-8")
                     want["a/large_bytes"] = vals["/a/large_bytes"]
                     want["obj"] = "pickle"
+                    want["a/none"] = "pickle"
                 bad = None
                 if set(data) != set(want):
                     bad = "files under the data directory: %s, expected %s" % (sorted(data), sorted(want))
